@@ -170,6 +170,20 @@ def setitem(I, st, env, t, v, frame):
 def delitem(I, st, env, t, frame):
     out = []
     from .exprs import seq_eval
+    if isinstance(t.slice, ast.Slice) and t.slice.lower is None and t.slice.upper is None and t.slice.step is None:
+        # del x[:] empties the list in place (every alias sees it)
+        for (s2, base) in I.evalf(st, env, t.value, frame):
+            e2 = env if s2 is st else dict(env)
+            if isinstance(base, Raised):
+                out.append((s2, e2, ('raise', base)))
+            elif isinstance(base, Obj) and base.oid in s2.seqs:
+                s2.seqs[base.oid] = ()
+                s2.ev('seq-clear', base.oid, frame.qual())
+                out.append((s2, e2, None))
+            else:
+                s2.ev('ext-delitem', vkey(base), 'all', frame.qual())
+                out.append((s2, e2, None))
+        return out
     for (s2, vs) in seq_eval(I, st, env, [t.value, t.slice], frame, forced=True):
         e2 = env if s2 is st else dict(env)
         if isinstance(vs, Raised):
@@ -333,7 +347,7 @@ def call_container_method(I, st, recv, name, args, kw, frame, node):
     where = (frame.qual(), node.lineno)
     if recv.oid in st.seqs:
         elems = st.seqs[recv.oid]
-        if name == 'append':
+        if name == 'append' or (name == 'add' and 'set@' in recv.oid):
             st.seqs[recv.oid] = elems + (args[0],)
             st.ev('seq-append', recv.oid, args[0], frame.qual())
             return [(st, NONE)]
